@@ -2,7 +2,7 @@ SPECIFICATION Spec
 CONSTANTS
   MaxNodes = 3
   PVals = {500, 1200, 1300}
-  HVals = {1}
+  HVals = {1, 2, 3}
   Demands = {0, 1, 2}
   NVals = {0, 160}
   Kinds <- KindsAll
